@@ -154,7 +154,9 @@ theorem flip_shift_defined (s : RngState) (h : s.flip_bitpos ≤ 64) : (cmb_rand
   Hypotheses about `double` (stated, not assumed as axioms), both true of IEEE-754 binary64 for a valid argument `x`
   (gamma: `shape > 0.0`, release-asserted; geometric: `0 < p ≤ 1`, the documented domain, asserted in debug builds):
     h0  `x != 0.0`                                  (x > 0)
-    h1  `!(x != y)` implies x and y are the same value (x == y with x > 0 finite or +inf: one encoding, not a NaN, not ±0) -/
+    h1  `!(x != y)` implies x and y are the same value (x == y with x > 0 finite or +inf: one encoding, not a NaN, not ±0)
+    h2  `!(x + 1.0 < 1.0)`                          (x > 0: the rounded sum is at least 1.0) — used by the small-shape guard of
+        `cmb_random_std_gamma`, which calls the function itself with `shape + 1.0`; hv1: `x + 1.0` is again a valid argument -/
 
 theorem memo_is_first_call {M F : Type} (init : M) (pro : F → M → M) (valid : F → Prop)
     (hstep : ∀ x y, valid x → valid y → pro x (pro y init) = pro x init) :
@@ -164,9 +166,22 @@ theorem memo_is_first_call {M F : Type} (init : M) (pro : F → M → M) (valid 
   | init => intros; rfl
   | call y m' hy _ ih => intro x hx; rw [ih y hy]; exact hstep x y hx hy
 
-/-- `cmb_random_std_gamma`: whatever was drawn before, the cache after the prologue is that of a first call with `shape` -/
+/-- the small-shape guard of `cmb_random_std_gamma` calls the function itself with `shape + 1`, which no longer takes the guard:
+    the depth 2 at which `…_prologue` cuts the regenerated recursion is enough, any further fuel changes nothing.
+    (Against a source without the guard this holds trivially.) -/
+theorem gamma_memo_depth {F : Type} (o : FloatOps F) (valid : F → Prop)
+    (h2 : ∀ x, valid x → o.lt (o.add x (o.lit "1")) (o.lit "1") = false)
+    (m : cmb_random_std_gamma_Memo F) (shape : F) (hv : valid shape) (k : Nat) :
+    cmb_random_std_gamma_prologue_fuel o (k + 2) shape m = cmb_random_std_gamma_prologue o shape m := by
+  have h := h2 shape hv
+  simp [cmb_random_std_gamma_prologue, cmb_random_std_gamma_prologue_fuel, h]
+
+/-- `cmb_random_std_gamma`: whatever was drawn before, the cache after the prologue (including the recursive call behind the
+    small-shape guard) is that of a first call with `shape` -/
 theorem gamma_memo_pure {F : Type} (o : FloatOps F) (valid : F → Prop)
     (h0 : ∀ x, valid x → o.ne x (o.lit "0") = true) (h1 : ∀ x y, valid x → o.ne x y = false → x = y)
+    (h2 : ∀ x, valid x → o.lt (o.add x (o.lit "1")) (o.lit "1") = false)
+    (hv1 : ∀ x, valid x → valid (o.add x (o.lit "1")))
     (m₁ m₂ : cmb_random_std_gamma_Memo F) (shape : F)
     (r₁ : MemoReach (cmb_random_std_gamma_Memo.init o) (cmb_random_std_gamma_prologue o) valid m₁)
     (r₂ : MemoReach (cmb_random_std_gamma_Memo.init o) (cmb_random_std_gamma_prologue o) valid m₂) (hv : valid shape) :
@@ -177,11 +192,53 @@ theorem gamma_memo_pure {F : Type} (o : FloatOps F) (valid : F → Prop)
     intro x y hx hy
     have hx0 := h0 x hx
     have hy0 := h0 y hy
-    by_cases hne : o.ne x y = true
-    · simp [cmb_random_std_gamma_prologue, cmb_random_std_gamma_Memo.init, hx0, hy0, hne]
-    · have hxy := h1 x y hx (by simpa using hne)
-      subst hxy
-      simp [cmb_random_std_gamma_prologue, cmb_random_std_gamma_Memo.init, hx0, hne]
+    have hx1 := h0 _ (hv1 x hx)
+    have hy1 := h0 _ (hv1 y hy)
+    have hx2 := h2 x hx
+    have hy2 := h2 y hy
+    -- the value the cache is computed for: the argument itself, or argument + 1 behind the small-shape guard (first
+    -- alternative); a source without the guard computes it for the argument in every case (second alternative)
+    by_cases lx : o.lt x (o.lit "1") = true <;> by_cases ly : o.lt y (o.lit "1") = true
+    · first
+      | (by_cases hne : o.ne (o.add x (o.lit "1")) (o.add y (o.lit "1")) = true
+         · simp [cmb_random_std_gamma_prologue, cmb_random_std_gamma_prologue_fuel, cmb_random_std_gamma_Memo.init, *]
+         · have hxy := h1 _ _ (hv1 x hx) (by simpa using hne)
+           simp [cmb_random_std_gamma_prologue, cmb_random_std_gamma_prologue_fuel, cmb_random_std_gamma_Memo.init, *])
+      | (by_cases hne : o.ne x y = true
+         · simp [cmb_random_std_gamma_prologue, cmb_random_std_gamma_prologue_fuel, cmb_random_std_gamma_Memo.init, *]
+         · have hxy := h1 x y hx (by simpa using hne)
+           subst hxy
+           simp [cmb_random_std_gamma_prologue, cmb_random_std_gamma_prologue_fuel, cmb_random_std_gamma_Memo.init, *])
+    · first
+      | (by_cases hne : o.ne (o.add x (o.lit "1")) y = true
+         · simp [cmb_random_std_gamma_prologue, cmb_random_std_gamma_prologue_fuel, cmb_random_std_gamma_Memo.init, *]
+         · have hxy := h1 _ _ (hv1 x hx) (by simpa using hne)
+           simp [cmb_random_std_gamma_prologue, cmb_random_std_gamma_prologue_fuel, cmb_random_std_gamma_Memo.init, *])
+      | (by_cases hne : o.ne x y = true
+         · simp [cmb_random_std_gamma_prologue, cmb_random_std_gamma_prologue_fuel, cmb_random_std_gamma_Memo.init, *]
+         · have hxy := h1 x y hx (by simpa using hne)
+           subst hxy
+           simp [cmb_random_std_gamma_prologue, cmb_random_std_gamma_prologue_fuel, cmb_random_std_gamma_Memo.init, *])
+    · first
+      | (by_cases hne : o.ne x (o.add y (o.lit "1")) = true
+         · simp [cmb_random_std_gamma_prologue, cmb_random_std_gamma_prologue_fuel, cmb_random_std_gamma_Memo.init, *]
+         · have hxy := h1 _ _ hx (by simpa using hne)
+           simp [cmb_random_std_gamma_prologue, cmb_random_std_gamma_prologue_fuel, cmb_random_std_gamma_Memo.init, *])
+      | (by_cases hne : o.ne x y = true
+         · simp [cmb_random_std_gamma_prologue, cmb_random_std_gamma_prologue_fuel, cmb_random_std_gamma_Memo.init, *]
+         · have hxy := h1 x y hx (by simpa using hne)
+           subst hxy
+           simp [cmb_random_std_gamma_prologue, cmb_random_std_gamma_prologue_fuel, cmb_random_std_gamma_Memo.init, *])
+    · first
+      | (by_cases hne : o.ne x y = true
+         · simp [cmb_random_std_gamma_prologue, cmb_random_std_gamma_prologue_fuel, cmb_random_std_gamma_Memo.init, *]
+         · have hxy := h1 _ _ hx (by simpa using hne)
+           simp [cmb_random_std_gamma_prologue, cmb_random_std_gamma_prologue_fuel, cmb_random_std_gamma_Memo.init, *])
+      | (by_cases hne : o.ne x y = true
+         · simp [cmb_random_std_gamma_prologue, cmb_random_std_gamma_prologue_fuel, cmb_random_std_gamma_Memo.init, *]
+         · have hxy := h1 x y hx (by simpa using hne)
+           subst hxy
+           simp [cmb_random_std_gamma_prologue, cmb_random_std_gamma_prologue_fuel, cmb_random_std_gamma_Memo.init, *])
   rw [memo_is_first_call _ _ valid hstep m₁ r₁ shape hv, memo_is_first_call _ _ valid hstep m₂ r₂ shape hv]
 
 /-- `cmb_random_geometric`: likewise (`prev` is never assigned, so `denom` is recomputed from `p` on every call) -/
@@ -198,20 +255,22 @@ theorem geometric_memo_pure {F : Type} (o : FloatOps F) (valid : F → Prop)
     have hx0 := h0 x hx
     have hy0 := h0 y hy
     by_cases hne : o.ne x y = true
-    · simp [cmb_random_geometric_prologue, cmb_random_geometric_Memo.init, hx0, hy0, hne]
+    · simp [cmb_random_geometric_prologue, cmb_random_geometric_prologue_fuel, cmb_random_geometric_Memo.init, hx0, hy0, hne]
     · have hxy := h1 x y hx (by simpa using hne)
       subst hxy
-      simp [cmb_random_geometric_prologue, cmb_random_geometric_Memo.init, hx0, hne]
+      simp [cmb_random_geometric_prologue, cmb_random_geometric_prologue_fuel, cmb_random_geometric_Memo.init, hx0, hne]
   rw [memo_is_first_call _ _ valid hstep m₁ r₁ p hv, memo_is_first_call _ _ valid hstep m₂ r₂ p hv]
 
-/- the hypotheses h0, h1 are satisfiable with valid arguments existing: integers, literals read as 0, valid = positive -/
+/- the hypotheses h0, h1, h2, hv1 are satisfiable with valid arguments existing: integers, the literal "1" read as 1 and every other
+   literal as 0, valid = positive -/
 example : ∃ (o : FloatOps Int) (valid : Int → Prop),
-    (∀ x, valid x → o.ne x (o.lit "0") = true) ∧ (∀ x y, valid x → o.ne x y = false → x = y) ∧ valid 3 :=
-  ⟨{ lit := fun _ => 0, add := (· + ·), sub := (· - ·), mul := (· * ·), div := (· / ·), neg := (- ·), fn := fun _ x => x,
+    (∀ x, valid x → o.ne x (o.lit "0") = true) ∧ (∀ x y, valid x → o.ne x y = false → x = y) ∧
+    (∀ x, valid x → o.lt (o.add x (o.lit "1")) (o.lit "1") = false) ∧ (∀ x, valid x → valid (o.add x (o.lit "1"))) ∧ valid 3 :=
+  ⟨{ lit := fun s => if s = "1" then 1 else 0, add := (· + ·), sub := (· - ·), mul := (· * ·), div := (· / ·), neg := (- ·), fn := fun _ x => x,
      ne := fun a b => decide (a ≠ b), eq := fun a b => decide (a = b), lt := fun a b => decide (a < b),
      le := fun a b => decide (a ≤ b), gt := fun a b => decide (a > b), ge := fun a b => decide (a ≥ b) },
    fun x => 0 < x,
-   by intro x hx; simp; omega, by intro x y _ h; simpa using h, by decide⟩
+   by intro x hx; simp; omega, by intro x y _ h; simpa using h, by intro x hx; simp; omega, by intro x hx; simp; omega, by decide⟩
 
 /-! ## Non-vacuity and concrete values -/
 
